@@ -95,6 +95,10 @@ def run(rep, F, ctx):
                                 '%(fn)s changes permissions at %(loc)s without the guard !is_symlink() || follow', P)
 
     errguard.err_guard(rep, F, cg, engine.load_table('err_guards.json'), lambda fn: 'stdfs' in fn)
+    # the Memfs side of `same tree, same success-or-failure`: Memfs keeps its indexes the way a real directory tree behaves (shared with C03 / C01)
+    import p_C03
+    p_C03.pair_rules(rep, F, cg, Mutation(F, cg))
+    errguard.err_guard(rep, F, cg, engine.load_table('err_guards.json'), lambda fn: 'memfs' in fn, rule='ERR-GUARD-MEMFS')
     errguard.io_table(rep, F, cg, engine.load_table('stdfs_io.json'))
     # evidence only: which PathError constructors each backend may call per trait method (Engler-style contradiction cross-check)
     diffs = []
@@ -122,6 +126,9 @@ def run(rep, F, ctx):
             diffs.append('%s: memfs-only %s, stdfs-only %s' % (m, sorted(sets['memfs'] - sets['stdfs']), sorted(sets['stdfs'] - sets['memfs'])))
     rep.analysed['validation_error_differences_not_armed'] = diffs
     rep.note('validation-error cross-reference (NOT armed, evidence only): %d methods whose backends can construct different PathError kinds' % len(diffs))
+    import siteguard as _sg
+    _t = engine.load_table('site_guards.json')
+    _sg.site_guard(rep, F, cg, _t, _t['_groups']['C02'])
     return engine.finish(
         rep, 'other', EXPLANATION,
         assumptions=['the chain and setter tables transcribe the documented configuration'],
